@@ -55,10 +55,11 @@ def main():
         if save:
             out = os.path.join(VERIF, "seeded", save)
             os.makedirs(out, exist_ok=True)
-            shutil.copy(os.path.join(seed, "patch.diff"), out)
-            shutil.copy(os.path.join(seed, "demo.py"), out)
-            if os.path.exists(os.path.join(seed, "notes.md")):
-                shutil.copy(os.path.join(seed, "notes.md"), out)
+            if os.path.realpath(seed) != os.path.realpath(out):     # re-evaluating a stored seed in place
+                shutil.copy(os.path.join(seed, "patch.diff"), out)
+                shutil.copy(os.path.join(seed, "demo.py"), out)
+                if os.path.exists(os.path.join(seed, "notes.md")):
+                    shutil.copy(os.path.join(seed, "notes.md"), out)
             meta["breaks"] = prop
             with open(os.path.join(out, "meta.json"), "w") as fh:
                 json.dump(meta, fh, indent=1)
